@@ -15,7 +15,7 @@ pub struct BytesSpec {
     pub seed: u32,
 }
 
-pub const N_CLASSES: u8 = 12;
+pub const N_CLASSES: u8 = 13;
 
 pub fn class_name(c: u8) -> &'static str {
     match c % N_CLASSES {
@@ -30,7 +30,8 @@ pub fn class_name(c: u8) -> &'static str {
         8 => "gzip-member",
         9 => "zlib-stream",
         10 => "common-prefix",
-        _ => "framing-tail",
+        11 => "framing-tail",
+        _ => "sibling",
     }
 }
 
@@ -138,6 +139,39 @@ impl BytesSpec {
                 if len > 1 {
                     out[len / 2] = 0;
                     out[0] = b'a' + (self.seed % 26) as u8;
+                }
+            }
+            12 => {
+                // a family of near-identical payloads: the bytes depend on the seed's upper bits
+                // only; the low byte picks a small edit (none, two bytes a given distance apart
+                // swapped, one bit flipped, a rotation) - same length, same byte multiset for the
+                // swaps and rotations, so that a checksum, a length or a prefix cannot tell the
+                // members apart
+                let mut fam = ((self.seed >> 8) as u64).wrapping_mul(0x9E37_79B9_7F4A_7C15) ^ 0xA5A5_5A5A_1234_5678;
+                while out.len() < len {
+                    let v = xorshift(&mut fam).to_le_bytes();
+                    let take = (len - out.len()).min(8);
+                    out.extend_from_slice(&v[..take]);
+                }
+                let e = (self.seed & 0xFF) as usize;
+                if len >= 2 {
+                    match e {
+                        0 => {}
+                        1..=130 => {
+                            let dist = e.min(len - 1);
+                            let i = (len - 1 - dist) / 3;
+                            if out[i] == out[i + dist] {
+                                out[i] = out[i].wrapping_add(1);
+                            }
+                            out.swap(i, i + dist);
+                        }
+                        131..=194 => {
+                            let bit = e - 131;
+                            let i = (len / 2 + bit / 8).min(len - 1);
+                            out[i] ^= 1 << (bit % 8);
+                        }
+                        _ => out.rotate_left((e - 194).min(len - 1)),
+                    }
                 }
             }
             11 => {
